@@ -130,7 +130,7 @@ def run(ck, only_sweeps=False, prop="C01"):
 
     if not only_sweeps:
         overlap_oracle(ck, cases, 150 if thorough else 40)
-        ck.notes["keyword_only_and_sink_runs"] = keyword_only_oracle(ck) + failing_sink_oracle(ck)
+        ck.notes["keyword_only_and_sink_runs"] = keyword_only_oracle(ck) + failing_sink_oracle(ck) + context_writing_element_oracle(ck)
 
     # every disagreement is a failing input of the property (Spec = documented semantics): shrink and report
     reported = set()
@@ -204,6 +204,40 @@ def keyword_only_oracle(ck):
                               "a %s with keyword-only parameters, factor from %s, offset from %s: got %s, documented semantics give %s"
                               % (kind, pf, po, got, exp), {"kind": "keyword-only", "component": kind, "factor": pf, "offset": po, "got": list(got), "want": list(exp)})
                 return n
+    return n
+
+
+def context_writing_element_oracle(ck):
+    """Direct oracle: an operation that writes a declared context key, used plainly, under a slicer and as the element of a
+    parameter sweep: the key it declares is created (last write wins) and a later node resolves its parameter from it."""
+    from semantiva.context_processors import ContextType
+    from semantiva.pipeline import Payload, Pipeline
+    from harness.lib import components as C
+    pg.setup_impl()
+    n = 0
+    src = {"processor": "FloatValueDataSource", "parameters": {"value": 2.0}}
+    after = {"processor": "FloatMultiplyOperation"}          # reads `factor` ... which nobody supplies: use a probe on the key instead
+    variants = {
+        "plain": ([src, {"processor": C.VerifScaleAndNoteOperation, "parameters": {"factor": 5.0}}], 10.0, 5.0),
+        "swept": ([src, {"processor": C.VerifScaleAndNoteOperation,
+                         "derive": {"parameter_sweep": {"parameters": {"factor": "f"}, "variables": {"f": [2.0, 5.0]}, "collection": "FloatDataCollection"}}}],
+                  [4.0, 10.0], 5.0),
+    }
+    for name, (nodes, want_data, want_key) in variants.items():
+        # a later node takes its parameter from the written key
+        nodes = nodes + [{"processor": 'template:"used-{last_factor}":label'}]
+        try:
+            res = Pipeline(nodes).process(Payload(None, ContextType({})))
+            d = res.data
+            got = ("done", [x.data for x in d] if hasattr(d, "__iter__") else d.data, res.context.get_value("last_factor"), res.context.get_value("label"))
+        except Exception as ex:  # noqa
+            got = ("raises", type(ex).__name__, str(ex)[:120])
+        n += 1
+        want = ("done", want_data, want_key, "used-%s" % want_key)
+        if got != want:
+            ck.fail_input("C01:context-writing-operation:%s" % name,
+                          "an operation that declares and writes `last_factor`, used %s: got %s, documented semantics give %s" % (name, got, want),
+                          {"kind": "context-writing-element", "variant": name, "got": list(got), "want": list(want)})
     return n
 
 
@@ -327,6 +361,14 @@ def replay(obj):
         pg.setup_impl()
         overlap_oracle(_Ck(), [(r["descriptors"], r["data0"], r["contexts"][0], ("done",))], 1)
         return 0
+    if r.get("kind") == "context-writing-element":
+        class _Ck3:
+            failing = []
+            def fail_input(self, sig, what, rep): self.failing.append(sig); print("STILL FAILS:", sig, "-", what)
+        c3 = _Ck3()
+        context_writing_element_oracle(c3)
+        print("recorded:", json.dumps(r), "| now:", c3.failing or "no violation on this tree")
+        return 1 if c3.failing else 0
     if r.get("kind") in ("keyword-only", "failing-sink"):
         class _Ck2:
             notes, cov, failing = {}, {"evaluations": 0}, []
